@@ -452,6 +452,41 @@ fn replay(args: &[String]) -> String {
             out.push_str(&toks.join(" "));
             write!(out, " | {:?}", d).unwrap();
         }
+        "evstep" => {
+            // evstep <modbits> <mode> (<Key> <State> | mode <Mode>): drive a recording decoder into the state, apply one op
+            let bits: u32 = args[1].parse().unwrap();
+            let mut d = EventDecoder::new(Rec, mode_by_name(&args[2]));
+            let press = |d: &mut EventDecoder<Rec>, k: KeyCode| { d.process_keyevent(KeyEvent::new(k, KeyState::Down)); };
+            if bits & 1 != 0 { press(&mut d, KeyCode::LShift); }
+            if bits & 2 != 0 { press(&mut d, KeyCode::RShift); }
+            if bits & 4 != 0 { press(&mut d, KeyCode::LControl); }
+            if bits & 8 != 0 { press(&mut d, KeyCode::RControl); }
+            if bits & 16 == 0 { press(&mut d, KeyCode::NumpadLock); }
+            if bits & 32 != 0 { press(&mut d, KeyCode::CapsLock); }
+            if bits & 64 != 0 { press(&mut d, KeyCode::LAlt); }
+            if bits & 128 != 0 { press(&mut d, KeyCode::RAltGr); }
+            if bits & 256 != 0 { press(&mut d, KeyCode::RControl2); }
+            let before = state_bits(&format!("{:?}", d));
+            let r = if args[3] == "mode" {
+                d.set_ctrl_handling(mode_by_name(&args[4]));
+                "-".to_string()
+            } else {
+                match guard(|| d.process_keyevent(KeyEvent::new(key_by_name(&args[3]), kstate_by_name(&args[4])))) {
+                    None => "P".to_string(),
+                    Some(None) => "none".to_string(),
+                    Some(Some(DecodedKey::RawKey(k))) => format!("raw:{:?}", k),
+                    Some(Some(DecodedKey::Unicode(c))) => {
+                        let code = c as u32;
+                        if (0x20000..0x40000).contains(&code) {
+                            let v = code - 0x20000;
+                            format!("cons:{:?}:{}:{}", ALL_KEYS[(v >> 10) as usize], (v >> 1) & 511, v & 1)
+                        } else { format!("uni:{}", code) }
+                    }
+                }
+            };
+            let after = state_bits(&format!("{:?}", d));
+            write!(out, "start={:?} {} {} {}", before.map(|b| (b & 511, b >> 9)), after.map(|b| b & 511).unwrap_or(9999), after.map(|b| b >> 9).unwrap_or(9), r).unwrap();
+        }
         _ => panic!("unknown replay kind"),
     }
     out.push('\n');
